@@ -143,16 +143,21 @@ class FunctionLogger:
                 # fsd can only be an array with size 1 since we support just single evaluation
                 fsd = fsd.item()
         except Exception as err:
-            if wrong_format_target_function:
-                err.args = (error_message,)
+            try:
+                if wrong_format_target_function:
+                    err.args = (error_message,)
 
-            else:
-                err.args += (
-                    "\n FunctionLogger:FuncError "
-                    + "Error in executing the logged function "
-                    + "with input: "
-                    + str(x_orig),
-                )
+                else:
+                    err.args += (
+                        "\n FunctionLogger:FuncError "
+                        + "Error in executing the logged function "
+                        + "with input: "
+                        + str(x_orig),
+                    )
+            except Exception:
+                # (exception objects that cannot be modified are re-raised as
+                # they are)
+                pass
             raise
 
         # if fval is an array with only one element, extract that element
